@@ -2,7 +2,7 @@
 EXTENDS History, Json
 C12 == 1..14
 C8 == 1..8
-C22 == 1..36
+C22 == 1..41
 Init == InitWith("func")
 EmitScn == (Bound /\ Len(hist) = MaxLen) => PrintT(<<"SCN", ToJson([hist |-> hist])>>)
 =============================================================================
